@@ -213,7 +213,13 @@ func Convert(value any, typ reflect.Type) (any, error) { //nolint: gocyclo
 		case reflect.Array, reflect.Slice:
 			result := reflect.MakeSlice(typ, 0, rv.Len())
 			for i := range rv.Len() {
-				item, err := Convert(rv.Index(i).Interface(), typ.Elem())
+				elem := rv.Index(i).Interface()
+				if elem == nil && et.Kind() == reflect.Interface {
+					// a nil element stays nil (reflect.ValueOf(nil) is not a value that can be appended)
+					result = reflect.Append(result, reflect.Zero(et))
+					continue
+				}
+				item, err := Convert(elem, et)
 				if err != nil {
 					return nil, err
 				}
